@@ -114,23 +114,27 @@ func decodeLine(line []byte) (*Entry, error) {
 	e.NewHash = plumbing.NewHash(newHashStr)
 	line = line[spaceIdx+1:]
 
-	// Split on tab to separate signature from message
-	sigBytes := line
-	before, after, ok := bytes.Cut(line, []byte{'\t'})
-	if ok {
-		sigBytes = before
-		e.Message = string(after)
+	// Parse signature: Name <email> timestamp timezone. Like git, the
+	// identity ends at the first '>' and the message starts after the first
+	// tab that follows it (names and emails may contain tabs).
+	closeBracket := bytes.IndexByte(line, '>')
+	if closeBracket == -1 {
+		return nil, fmt.Errorf("invalid signature in reflog entry")
 	}
-
-	// Parse signature: Name <email> timestamp timezone
-	open := bytes.LastIndexByte(sigBytes, '<')
-	closeBracket := bytes.LastIndexByte(sigBytes, '>')
-	if open == -1 || closeBracket == -1 || closeBracket < open {
+	open := bytes.IndexByte(line[:closeBracket], '<')
+	if open == -1 {
 		return nil, fmt.Errorf("invalid signature in reflog entry")
 	}
 
-	e.Committer.Name = string(bytes.TrimSpace(sigBytes[:open]))
-	e.Committer.Email = string(sigBytes[open+1 : closeBracket])
+	sigBytes := line
+	if i := bytes.IndexByte(line[closeBracket:], '\t'); i != -1 {
+		sigBytes = line[:closeBracket+i]
+		e.Message = string(line[closeBracket+i+1:])
+	}
+
+	// git only strips ASCII whitespace around the name.
+	e.Committer.Name = string(bytes.Trim(line[:open], " \t\r\n"))
+	e.Committer.Email = string(line[open+1 : closeBracket])
 
 	// Parse timestamp and timezone after '> '
 	if closeBracket+2 >= len(sigBytes) {
